@@ -458,71 +458,403 @@ func runC17Term(c *Ctx) {
 	} else {
 		c.bad("(*globValidator).validateNext|consumes", vn.Pos(), "does not start by consuming a character: the outer loop may not make progress")
 	}
-	// every `return true` is controlled by Peek() != EOF
-	okRet := true
-	for _, b := range vn.Blocks {
-		ret, isRet := b.Instrs[len(b.Instrs)-1].(*ssa.Return)
-		if !isRet {
-			continue
-		}
-		if k, ok := ret.Results[0].(*ssa.Const); ok && k.Value != nil && k.Value.String() == "true" {
-			eofTested := false
-			conds := controllingConds(b)
-			for _, pr := range b.Preds {
-				if ifi, ok := pr.Instrs[len(pr.Instrs)-1].(*ssa.If); ok {
-					conds[ifi] = pr.Succs[0] == b
-				}
-			}
-			for ifi := range conds {
-				if bo, ok := ifi.Cond.(*ssa.BinOp); ok {
-					for _, o := range []ssa.Value{bo.X, bo.Y} {
-						if k, ok := constInt(o); ok && k == -1 {
-							eofTested = true
-						}
-					}
-				}
-			}
-			if !eofTested {
-				okRet = false
-			}
-		}
-	}
-	if okRet {
-		c.ok("(*globValidator).validateNext|stops at EOF", vn.Pos(), "`return true` is only reached when the look-ahead is not EOF")
+	g := &globScan{p: p, may: map[*ssa.Function]bool{}, must: map[*ssa.Function]int{}}
+	// every way of returning true is reached only on paths on which the look-ahead was compared with EOF and found
+	// different (and nothing was consumed since)
+	if badRets := g.returnsTrueAtEOF(vn, false, 0); len(badRets) == 0 {
+		c.ok("(*globValidator).validateNext|stops at EOF", vn.Pos(), "true is only returned on paths on which the look-ahead was found to differ from EOF")
 	} else {
-		c.bad("(*globValidator).validateNext|stops at EOF", vn.Pos(), "can return true at EOF: validate() would loop forever")
+		c.bad("(*globValidator).validateNext|stops at EOF", vn.Pos(), "can return true without the look-ahead having been found to differ from EOF on that path ("+strings.Join(badRets, ", ")+"): validate() would loop forever")
 	}
-	// the character-class loop: its body starts with scan.Next and it returns at EOF
+	// the character-class loop: every way around it consumes a character, and it returns at EOF
 	// (the loop may live in validateNext itself or in a method of the validator that validateNext calls for the `[` case;
 	// every loop of those functions has to consume)
-	loopOK, loops := true, 0
+	loops := 0
+	var stuck []string
 	for _, f := range p.withHelpers(vn, 1) {
 		if f != vn && (f.Signature.Recv() == nil || pointeeName(f.Signature.Recv().Type()) != "globValidator") {
 			continue
 		}
 		for _, h := range loopHeaders(f) {
-			loops++
-			consumes := false
-			for b := range naturalLoop(h) {
-				for _, in := range b.Instrs {
-					if call, ok := in.(*ssa.Call); ok && calleeFullName(&call.Call) == "(*text/scanner.Scanner).Next" {
-						consumes = true
-					}
-				}
+			if isRangeLoop(h) {
+				continue
 			}
-			if !consumes {
-				loopOK = false
+			loops++
+			if at := g.idleWayAround(h); at != "" {
+				stuck = append(stuck, at)
 			}
 		}
 	}
-	if loops == 0 {
-		loopOK = false
+	switch {
+	case loops == 0:
+		c.bad("(*globValidator).validateNext|class loop consumes", vn.Pos(), "no [...] loop found")
+	case len(stuck) == 0:
+		c.ok("(*globValidator).validateNext|class loop consumes", vn.Pos(), "every way around the [...] loop consumes a character (EOF is a case that returns)")
+	default:
+		c.bad("(*globValidator).validateNext|class loop consumes", vn.Pos(), "the [...] loop can be gone around without consuming a character ("+strings.Join(stuck, "; ")+"): it would not end")
 	}
-	if loopOK {
-		c.ok("(*globValidator).validateNext|class loop consumes", vn.Pos(), "the [...] loop consumes a character per iteration (EOF is a case that returns)")
-	} else {
-		c.bad("(*globValidator).validateNext|class loop consumes", vn.Pos(), "the [...] loop does not consume a character per iteration")
+}
+
+// globScan: what the glob validator's code does to its scanner.
+type globScan struct {
+	p    *Prog
+	may  map[*ssa.Function]bool
+	must map[*ssa.Function]int // 1 = consumes on every path to a return, 2 = not, 3 = being computed
+}
+
+const (
+	scanNextFn = "(*text/scanner.Scanner).Next"
+	scanPeekFn = "(*text/scanner.Scanner).Peek"
+)
+
+// mayConsume: the instruction is a call that can advance the scanner (scan.Next, a function of the module from which
+// scan.Next can be reached, or a call whose target is not known).
+func (g *globScan) mayConsume(in ssa.Instruction) bool {
+	call, ok := in.(ssa.CallInstruction)
+	if !ok {
+		return false
 	}
+	cc := call.Common()
+	if calleeFullName(cc) == scanNextFn {
+		return true
+	}
+	f := staticCallee(cc)
+	if f == nil {
+		if _, isBuiltin := cc.Value.(*ssa.Builtin); isBuiltin {
+			return false
+		}
+		return true
+	}
+	if !inModule(f) {
+		return false
+	}
+	if r, done := g.may[f]; done {
+		return r
+	}
+	r := false
+	for h := range g.p.reachable(f) {
+		if len(findCalls(h, scanNextFn)) > 0 {
+			r = true
+			break
+		}
+	}
+	g.may[f] = r
+	return r
+}
+
+// mustConsume: the instruction is a call that advances the scanner whenever it returns: scan.Next, or a function of the
+// module every path of which from entry to a return passes such a call.
+func (g *globScan) mustConsume(in ssa.Instruction, depth int) bool {
+	call, ok := in.(*ssa.Call)
+	if !ok {
+		return false
+	}
+	if calleeFullName(&call.Call) == scanNextFn {
+		return true
+	}
+	f := staticCallee(&call.Call)
+	if f == nil || !inModule(f) || len(f.Blocks) == 0 || depth > 3 {
+		return false
+	}
+	switch g.must[f] {
+	case 1:
+		return true
+	case 2, 3:
+		return false
+	}
+	g.must[f] = 3
+	idle := map[*ssa.BasicBlock]bool{} // blocks that can be passed without consuming
+	for _, b := range f.Blocks {
+		idle[b] = !g.blockMustConsume(b, depth+1)
+	}
+	res := 1
+	if idle[f.Blocks[0]] {
+		seen := map[*ssa.BasicBlock]bool{f.Blocks[0]: true}
+		work := []*ssa.BasicBlock{f.Blocks[0]}
+		for len(work) > 0 && res == 1 {
+			b := work[len(work)-1]
+			work = work[:len(work)-1]
+			if _, isRet := b.Instrs[len(b.Instrs)-1].(*ssa.Return); isRet {
+				res = 2
+			}
+			for _, s := range b.Succs {
+				if idle[s] && !seen[s] {
+					seen[s] = true
+					work = append(work, s)
+				}
+			}
+		}
+	}
+	g.must[f] = res
+	return res == 1
+}
+
+func (g *globScan) blockMustConsume(b *ssa.BasicBlock, depth int) bool {
+	for _, in := range b.Instrs {
+		if g.mustConsume(in, depth) {
+			return true
+		}
+	}
+	return false
+}
+
+// idleWayAround: a way from the loop header back to it, inside the loop, on which no block consumes a character
+// ("" when every way around consumes). The answer names the block that jumps back.
+func (g *globScan) idleWayAround(h *ssa.BasicBlock) string {
+	if g.blockMustConsume(h, 0) {
+		return ""
+	}
+	body := naturalLoop(h)
+	seen := map[*ssa.BasicBlock]bool{}
+	work := []*ssa.BasicBlock{h}
+	for len(work) > 0 {
+		b := work[len(work)-1]
+		work = work[:len(work)-1]
+		for _, s := range b.Succs {
+			if s == h {
+				return "loop at " + g.p.Pos(blockPos(h)) + ": back from " + g.p.Pos(blockPos(b)) + " with nothing consumed"
+			}
+			if body[s] && !seen[s] && !g.blockMustConsume(s, 0) {
+				seen[s] = true
+				work = append(work, s)
+			}
+		}
+	}
+	return ""
+}
+
+// blockPos: a source position inside the block (the block itself when it has one, otherwise the nearest predecessor that has).
+func blockPos(b *ssa.BasicBlock) token.Pos {
+	seen := map[*ssa.BasicBlock]bool{}
+	for b != nil && !seen[b] {
+		seen[b] = true
+		for i := len(b.Instrs) - 1; i >= 0; i-- {
+			if pos := b.Instrs[i].Pos(); pos.IsValid() {
+				return pos
+			}
+		}
+		if len(b.Preds) == 0 {
+			break
+		}
+		b = b.Preds[0]
+	}
+	return token.NoPos
+}
+
+// eofTest: what an outcome of the condition says about the look-ahead: +1 it is not EOF, -1 it is EOF, 0 nothing.
+// The condition has to compare the result of a scan.Peek() call (returned as peek) with a constant.
+func eofTest(cond ssa.Value) (peek *ssa.Call, whenTrue, whenFalse int) {
+	switch x := cond.(type) {
+	case *ssa.UnOp:
+		if x.Op == token.NOT {
+			pk, t, f := eofTest(x.X)
+			return pk, f, t
+		}
+	case *ssa.BinOp:
+		a, b, op := x.X, x.Y, x.Op
+		if _, isConst := a.(*ssa.Const); isConst {
+			a, b = b, a
+			switch op {
+			case token.LSS:
+				op = token.GTR
+			case token.GTR:
+				op = token.LSS
+			case token.LEQ:
+				op = token.GEQ
+			case token.GEQ:
+				op = token.LEQ
+			}
+		}
+		call, ok := a.(*ssa.Call)
+		if !ok || calleeFullName(&call.Call) != scanPeekFn {
+			return nil, 0, 0
+		}
+		k, ok := constInt(b)
+		if !ok {
+			return nil, 0, 0
+		}
+		switch {
+		case op == token.EQL && k == -1:
+			return call, -1, +1
+		case op == token.NEQ && k == -1:
+			return call, +1, -1
+		case op == token.EQL && k >= 0:
+			return call, +1, 0
+		case op == token.NEQ && k >= 0:
+			return call, 0, +1
+		case op == token.LSS && k == 0, op == token.LEQ && k == -1:
+			return call, -1, +1
+		case op == token.GEQ && k == 0, op == token.GTR && k == -1:
+			return call, +1, -1
+		}
+	}
+	return nil, 0, 0
+}
+
+// peekFresh: nothing can have been consumed between the Peek call and the end of block b.
+func (g *globScan) peekFresh(peek *ssa.Call, b *ssa.BasicBlock) bool {
+	last := b.Instrs[len(b.Instrs)-1]
+	if peek.Block() != b && !peek.Block().Dominates(b) {
+		return false
+	}
+	fresh := true
+	eachInstr(b.Parent(), func(_ *ssa.BasicBlock, _ int, in ssa.Instruction) {
+		if fresh && g.mayConsume(in) && instrReachableAfter(peek, in) && (in.Block() == b || instrReachableAfter(in, last)) {
+			if in.Block() == b && peek.Block() == b && instrIndex(in) < instrIndex(peek) {
+				return // consumed before the look-ahead was taken
+			}
+			fresh = false
+		}
+	})
+	return fresh
+}
+
+// returnsTrueAtEOF: the returns of fn (a function with one boolean result) that can yield true although the look-ahead
+// was not found to differ from EOF on the path. A forward must-analysis: the fact "the look-ahead is not EOF" is
+// established by the outcome of a comparison of a fresh scan.Peek() and is lost by anything that may consume; at a join
+// it has to hold on every incoming edge. atEntry: whether the fact holds when fn is entered.
+func (g *globScan) returnsTrueAtEOF(fn *ssa.Function, atEntry bool, depth int) []string {
+	if len(fn.Blocks) == 0 {
+		return []string{"no body: " + fn.Name()}
+	}
+	in := map[*ssa.BasicBlock]bool{}
+	for _, b := range fn.Blocks {
+		in[b] = true
+	}
+	in[fn.Blocks[0]] = atEntry
+	// through: the fact after the first n instructions of b
+	through := func(b *ssa.BasicBlock, n int) bool {
+		st := in[b]
+		for _, x := range b.Instrs[:n] {
+			if g.mayConsume(x) {
+				st = false
+			}
+		}
+		return st
+	}
+	edge := func(b *ssa.BasicBlock, i int) bool {
+		st := through(b, len(b.Instrs))
+		if ifi, ok := b.Instrs[len(b.Instrs)-1].(*ssa.If); ok {
+			if peek, t, f := eofTest(ifi.Cond); peek != nil && g.peekFresh(peek, b) {
+				eff := t
+				if i == 1 {
+					eff = f
+				}
+				switch eff {
+				case +1:
+					return true
+				case -1:
+					return false
+				}
+			}
+		}
+		return st
+	}
+	for changed := true; changed; {
+		changed = false
+		for _, b := range fn.Blocks[1:] {
+			st := true
+			for _, pr := range b.Preds {
+				for i, s := range pr.Succs {
+					if s == b && !edge(pr, i) {
+						st = false
+					}
+				}
+			}
+			if st != in[b] {
+				in[b] = st
+				changed = true
+			}
+		}
+	}
+	var out []string
+	// yields: can the value, used at the end of block b, be true while the look-ahead may be EOF?
+	var yields func(v ssa.Value, b *ssa.BasicBlock, seen map[ssa.Value]bool)
+	yields = func(v ssa.Value, b *ssa.BasicBlock, seen map[ssa.Value]bool) {
+		if seen[v] {
+			return
+		}
+		seen[v] = true
+		at := g.p.Pos(blockPos(b))
+		switch x := v.(type) {
+		case *ssa.Const:
+			if x.Value != nil && x.Value.Kind() == constant.Bool && !constant.BoolVal(x.Value) {
+				return
+			}
+		case *ssa.Phi:
+			if x.Block() == b && !func() bool {
+				for _, y := range b.Instrs {
+					if g.mayConsume(y) {
+						return true
+					}
+				}
+				return false
+			}() {
+				for i, e := range x.Edges {
+					pr := b.Preds[i]
+					if k, ok := e.(*ssa.Const); ok && k.Value != nil && k.Value.Kind() == constant.Bool {
+						if !constant.BoolVal(k.Value) {
+							continue
+						}
+						for j, s := range pr.Succs {
+							if s == b && !edge(pr, j) {
+								out = append(out, "true from "+g.p.Pos(blockPos(pr))+" returned at "+at)
+								break
+							}
+						}
+						continue
+					}
+					// the value of a condition that was decided in the predecessor
+					if _, isPhi := e.(*ssa.Phi); !isPhi {
+						if ei, ok := e.(ssa.Instruction); ok && ei.Block() == pr {
+							yields(e, pr, seen)
+							continue
+						}
+					}
+					for j, s := range pr.Succs {
+						if s == b && !edge(pr, j) {
+							out = append(out, "value from "+g.p.Pos(blockPos(pr))+" returned at "+at)
+							break
+						}
+					}
+				}
+				return
+			}
+		case *ssa.BinOp, *ssa.UnOp:
+			if peek, t, _ := eofTest(v); peek != nil && t == +1 && g.peekFresh(peek, b) {
+				return
+			}
+		case *ssa.Call:
+			if f := staticCallee(&x.Call); f != nil && inModule(f) && len(f.Blocks) > 0 && depth < 2 && x.Block() == b &&
+				f.Signature.Results().Len() == 1 {
+				later := false
+				for _, y := range b.Instrs[instrIndex(x)+1:] {
+					if g.mayConsume(y) {
+						later = true
+					}
+				}
+				if !later {
+					out = append(out, g.returnsTrueAtEOF(f, through(b, instrIndex(x)), depth+1)...)
+					return
+				}
+			}
+		}
+		if !through(b, len(b.Instrs)) {
+			out = append(out, "return at "+at)
+		}
+	}
+	for _, b := range fn.Blocks {
+		ret, isRet := b.Instrs[len(b.Instrs)-1].(*ssa.Return)
+		if !isRet {
+			continue
+		}
+		if len(ret.Results) != 1 {
+			out = append(out, "return at "+g.p.Pos(ret.Pos())+" (not a single result)")
+			continue
+		}
+		yields(ret.Results[0], b, map[ssa.Value]bool{})
+	}
+	return out
 }
 
 // lookaheadChars: the constant characters that the enclosing statements of a node have established for the next character:
